@@ -364,4 +364,50 @@ Section CL.
         split; [unfold omit_zero; rewrite Ez; reflexivity|].
         intros Hc. destruct (Hr Hc) as [H1 H2]. split; [exact H1|]. cbn [forallb]. rewrite H2. reflexivity.
   Qed.
+  (** ** CredentialValue, KeyValue, KeyMaterial: alternatives written under one tag *)
+  Definition SameEN (st : vstate) (fl : list field) (tag : Z) (vl : list value) (items : list item) (vl' : list value) : Prop :=
+    exists f0, forall g, (f0 <= g)%nat ->
+      enc_same_tag S g st fl tag vl = Ok (items, st) /\ norm_same_tag S g st fl vl = (vl', st).
+
+  Lemma same_nil st tag : SameEN st [] tag [] [] [].
+  Proof. exists 1%nat. intros g Hg. destruct g as [|g]; [lia|]. rewrite enc_same_tag_eq, norm_same_tag_eq. split; reflexivity. Qed.
+
+  Lemma same_cons st fd fl' tag x vl' ia x' ib vl'' :
+    (exists f0, forall g, (f0 <= g)%nat -> enc_ty g st (f_ty fd) tag x = Ok (ia, st) /\ norm_ty g st (f_ty fd) x = (x', st)) ->
+    SameEN st fl' tag vl' ib vl'' -> SameEN st (fd :: fl') tag (x :: vl') (ia ++ ib) (x' :: vl'').
+  Proof.
+    intros (fa & Ha) (fb & Hb). exists (Datatypes.S (Nat.max fa fb)). intros g Hge. destruct g as [|g]; [lia|].
+    destruct (Ha g ltac:(lia)) as [A1 A2]. destruct (Hb g ltac:(lia)) as [B1 B2].
+    rewrite enc_same_tag_eq, norm_same_tag_eq, A1. cbn [bind fst snd]. rewrite B1. cbv zeta. rewrite A2. cbn [fst snd]. rewrite B2. split; reflexivity.
+  Qed.
+
+  Lemma same_cons_nil st fd fl' tag vl' ib vl'' t' :
+    f_ty fd = TPtr t' -> SameEN st fl' tag vl' ib vl'' -> SameEN st (fd :: fl') tag (VNil :: vl') ib (VNil :: vl'').
+  Proof.
+    intros Et Hb. change ib with ([] ++ ib)%list. apply same_cons; [|exact Hb].
+    exists 1%nat. intros g Hg. destruct g as [|g]; [lia|]. rewrite Et, enc_ty_eq, norm_ty_eq. split; reflexivity.
+  Qed.
+
+  Lemma good_en st t tag x ia : Good st t tag x st ia ->
+    exists x', (exists f0, forall g, (f0 <= g)%nat -> enc_ty g st t tag x = Ok (ia, st) /\ norm_ty g st t x = (x', st)) /\
+               (exists f0, forall g, (f0 <= g)%nat -> conf_ty g st t tag x' = Some st).
+  Proof.
+    intros (x' & f0 & Hg). exists x'. split; exists f0; intros g Hge; destruct (Hg g Hge) as (H1 & H2 & H3); auto.
+  Qed.
+  (** a structure whose encoder writes every alternative under the tag it is given *)
+  Lemma same_named st n d n' tag vl items vl' :
+    find_tdef S n = Some d -> t_custom_enc d = true ->
+    String.eqb n "ttlv.Value" = false -> String.eqb n "ttlv.Struct" = false ->
+    String.eqb n "kmip.RequestBatchItem" = false -> String.eqb n "kmip.ResponseBatchItem" = false ->
+    String.eqb n "kmip.UnknownPayload" = false ->
+    SameEN st (t_fields d) tag vl items vl' ->
+    exists f0, forall g, (f0 <= g)%nat ->
+      enc_ty g st (TNamed n) tag (VStruct n' vl) = Ok (items, st) /\
+      norm_ty g st (TNamed n) (VStruct n' vl) = (VStruct n' vl', st).
+  Proof.
+    intros Ed Hce EV ES E1 E2 E3 (f0 & Hs). pose proof (find_tdef_name S _ _ Ed) as Hnm.
+    exists (Datatypes.S (Datatypes.S f0)). intros g Hge. destruct g as [|[|g]]; try lia.
+    destruct (Hs g ltac:(lia)) as [S1 S2].
+    rewrite enc_ty_eq, norm_ty_eq, EV, ES, Ed, Hce, enc_custom_eq, norm_custom_eq. cbv zeta. rewrite Hnm, E1, E2, E3, S1, S2. split; reflexivity.
+  Qed.
 End CL.
